@@ -94,6 +94,23 @@ def run_lines(cmd, lines, timeout=120, cwd=None, env=None, _budget=None):
 ISOLATION_LAUNCHES = 600
 
 
+import contextlib, fcntl
+
+
+@contextlib.contextmanager
+def lake_lock():
+    """Exclusive advisory lock around `lake build`: two checks started at the same time (quick and
+    thorough, or two properties) would otherwise race on lean/.lake/build and report spurious
+    missing-.olean errors.  Builds are no-ops after set-up, so the serialisation costs nothing."""
+    os.makedirs(BUILD, exist_ok=True)
+    with open(os.path.join(BUILD, "lake.lock"), "w") as f:
+        fcntl.flock(f, fcntl.LOCK_EX)
+        try:
+            yield
+        finally:
+            fcntl.flock(f, fcntl.LOCK_UN)
+
+
 class Check:
     def __init__(self, pid, tier, seed):
         self.pid, self.tier, self.seed = pid, tier, seed
@@ -120,7 +137,8 @@ class Check:
     def lake_build(self, targets, obligation=True):
         cmd = ["lake", "build"] + targets
         self.checker_cmds.append("cd lean && " + " ".join(cmd))
-        rc, out = sh(cmd, cwd=LEAN, timeout=3000)
+        with lake_lock():           # lake has no build lock of its own: serialise concurrent checks
+            rc, out = sh(cmd, cwd=LEAN, timeout=3000)
         if rc != 0:
             errs = [l for l in out.split("\n") if "error" in l][:20]
             self.broken.append(("lake build " + " ".join(targets), "\n".join(errs) or out[-2000:]))
